@@ -416,6 +416,9 @@ func runStep(vm *ds.Context, st Step, log *[]stEvent, w *world, sp StepPlan, pro
 }
 
 type runRes struct {
+	// raw: what GetCurSeed returned after each step, kept as the host keeps it, with its hex form at that moment
+	raw    [][]byte
+	rawHex []string
 	outs   []StepOut
 	vm     *ds.Context
 	ran    int
@@ -448,6 +451,10 @@ func runHistory(c Case, plan Plan, probe bool, upto int) runRes {
 			k = 0x9e3779b97f4a7c15 ^ uint64(i+1)
 		}
 		res.outs = append(res.outs, runStep(vm, c.Steps[i], &log, w, sp, k))
+		if b, err := vm.GetCurSeed(); err == nil {
+			res.raw = append(res.raw, b)
+			res.rawHex = append(res.rawHex, hex.EncodeToString(b))
+		}
 	}
 	res.ran, res.global, res.inside = w.ran, w.global, w.inside
 	return res
@@ -623,6 +630,20 @@ func judge(c Case, s *rt.Section) (v verdict) {
 	if clean.seed0 != c.Cfg.SeedHex {
 		v.f = s.NewFailure("seed-roundtrip", "seed:init-roundtrip", c, "GetCurSeed right after Init = "+clean.seed0, "the seed bytes "+c.Cfg.SeedHex)
 		return
+	}
+	// a capture is the host's: later evaluations and later captures leave its bytes alone, and so they do the seed
+	// bytes the host handed over
+	for i, b := range clean.raw {
+		if got := hex.EncodeToString(b); got != clean.rawHex[i] {
+			v.f = s.NewFailure("capture-stable", "seed:capture-overwritten", c, fmt.Sprintf("the state captured with GetCurSeed after step %d read %s when it was taken and reads %s after the later steps", i, clean.rawHex[i], got), "a capture does not change once taken")
+			return
+		}
+	}
+	if clean.vm != nil && clean.vm.Seed != nil {
+		if got := hex.EncodeToString(clean.vm.Seed); got != c.Cfg.SeedHex {
+			v.f = s.NewFailure("capture-stable", "seed:host-seed-bytes-modified", c, "Context.Seed reads "+got+" after the run", "the seed bytes the host set: "+c.Cfg.SeedHex)
+			return
+		}
 	}
 	for i, o := range clean.outs {
 		if o.leak != nil {
@@ -954,7 +975,9 @@ var operators = []operator{
 	{"d6", "d6", "", false}, {"2d6", "2d6", "", false}, {"XdYk", "3d6k2", "", false}, {"XdYq", "4d6q1", "", false},
 	{"XdYkh", "2d20kh1", "", false}, {"XdYkl", "4d6kl2", "", false}, {"XdYdh", "4d6dh1", "", false}, {"XdYdl", "4d6dl1", "", false},
 	{"adv", "d20优势", "", false}, {"dis", "d20劣势", "", false}, {"min", "3d6min2", "", false}, {"max", "3d6max4", "", false},
-	{"upper", "2D10", "", false}, {"chain", "2d6d8", "", false}, {"operands", "(d4)d(d6)k(d2)", "", false},
+	{"upper", "2D10", "", false}, {"chain", "2d6d8", "", false},
+	// sizes whose draw is rejected and repeated with noticeable probability (2^64 mod n is large): 3*2^61, 10^18, 2^62+1
+	{"huge-3x2^61", "4d6917529027641081856", "", false}, {"huge-10^18", "6d1000000000000000000", "", false}, {"huge-2^62+1", "3d4611686018427387905k2", "", false}, {"operands", "(d4)d(d6)k(d2)", "", false},
 	{"d-default", "d", "", false}, {"Xd-default", "2d", "", false}, {"Xdk-default", "3dk1", "", false}, {"d-adv-default", "d优势", "", false},
 	{"fate", "f", "fate", false},
 	{"coc-b", "b", "coc", false}, {"coc-bN", "b2", "coc", false}, {"coc-p", "p", "coc", false}, {"coc-pN", "p3", "coc", false},
